@@ -7,9 +7,15 @@ exact-size heap blocks):
   life-cycle group (GROUP4; every scenario -- also the ones above -- runs inside ONE recorded window of the string allocator in which
   all its objects are constructed and destroyed):
   :repeat a k | :pad a b ch | :split a delimiter-char | :fromtill a c1 c2 | :masked value mask bytecount | :binary bytes
-  :seq n op_1 .. op_n      operations applied one after the other to the same three objects obj[0..2], which are destroyed at the end:
+  :seq n op_1 .. op_n      operations applied one after the other to the same four objects, which are destroyed at the end: obj[0..2] are
+      named objects, obj[3] is the RESULT OBJECT R = the very object an operation returned (constructed directly from the returned
+      value: no copy, no assignment in between), consumed in place by the following steps (i, j, k in 0..3):
       :set i a | :asg i j | :app i j | :appc i a | :low i j | :sub i j begin amount | :rc i c1 c2 | :rs i from to | :prt i j
-      :pad i j ch | :fmt i a b | :rep i a k | :plus i j k
+      :pad i j ch | :fmt i a b | :rep i a k | :plus i j k                              (results ASSIGNED to obj[i])
+      :rnew a | :rcopy j | :rsub j begin amount | :rsub1 j begin | :rft j c1 c2 | :rlow j | :rprt j | :rplus j k | :rfmt a b | :rrep a k
+      :rord n | :rmask value mask bytecount | :rbin bytes | :rsplit j delimiter-char k    (R = the returned object / element k of the collection)
+      :size i | :at i pos | :cmp i j | :cpb i n | :find i start ch                      (observers: one log entry each)
+      value = the four strings at the end, then the log entries (sizes as 8 bytes little-endian, truth values as one byte).
 Observation: <value> <independent reference (std::string/libc) agrees> <every buffer returned once with its size>."""
 import itertools
 from vlib import tz, tb
@@ -41,8 +47,12 @@ GROUP1 = ["strlen", "strcmp", "strncmp", "strstr", "memcmp", "contains", "contai
           "findfrom", "substr", "substr1", "lower", "replc", "ordinal"]
 GROUP2 = ["repls", "printable", "append", "plus", "copybuf", "fmt"]
 GROUP3 = ["atoi", "atou", "bytes"]       # number parsing; "bytes" = the per-byte sweeps of every character predicate
-GROUP4 = ["repeat", "pad", "split", "fromtill", "masked", "binary", "seq"]     # life cycle: allocation pairing on every operation and on sequences
-SEQ_ARITY = {":set": 2, ":asg": 2, ":app": 2, ":appc": 2, ":low": 2, ":sub": 4, ":rc": 3, ":rs": 3, ":prt": 2, ":pad": 3, ":fmt": 3, ":rep": 3, ":plus": 3}
+GROUP4 = ["repeat", "pad", "split", "fromtill", "masked", "binary", "seq", "chain"]     # life cycle: allocation pairing on every operation and on sequences
+SEQ_ARITY = {":set": 2, ":asg": 2, ":app": 2, ":appc": 2, ":low": 2, ":sub": 4, ":rc": 3, ":rs": 3, ":prt": 2, ":pad": 3, ":fmt": 3, ":rep": 3, ":plus": 3,
+             ":rnew": 1, ":rcopy": 1, ":rsub": 3, ":rsub1": 2, ":rft": 3, ":rlow": 1, ":rprt": 1, ":rplus": 2, ":rfmt": 2, ":rrep": 2, ":rord": 1, ":rmask": 3,
+             ":rbin": 1, ":rsplit": 3, ":size": 1, ":at": 2, ":cmp": 2, ":cpb": 2, ":find": 3}
+R_PRODUCERS = (":rnew", ":rcopy", ":rsub", ":rsub1", ":rft", ":rlow", ":rprt", ":rplus", ":rfmt", ":rrep", ":rord", ":rmask", ":rbin", ":rsplit")
+OBSERVERS = (":size", ":at", ":cmp", ":cpb", ":find")
 SEARCH_CAP = 20000                       # search mode (a proof no longer builds): the quick families + this many thorough scenarios
 PAIR_OPS = ["strcmp", "strstr", "contains", "containsnc", "starts", "ends", "count", "eq", "eqnc"]
 
@@ -337,32 +347,175 @@ def seq_releasers(rng, n):
             [":asg 1 0", ":appc 1 " + tb(b), ":asg 0 1"]]
 
 
+def random_step(rng, w, lens=(0, 1, 2, 3, 5, 8, 30, 31, 32, 33, 64, 99, 100, 101), top=4):
+    i, j, k = rng.randrange(top), rng.randrange(top), rng.randrange(top)
+    a = nstr(rng, rng.choice(lens) if rng.random() < 0.3 else rng.randint(0, 6))
+    b = nstr(rng, rng.randint(0, 3))
+    if w in (":set", ":appc"):
+        return "%s %x %s" % (w, i, tb(a))
+    if w in (":asg", ":app", ":low", ":prt", ":cmp"):
+        return "%s %x %x" % (w, i, j)
+    if w == ":sub":
+        return ":sub %x %x %x %x" % (i, j, rng.choice([0, 1, 2, 5, 40, NPOS]), rng.choice([0, 1, 3, 31, 32, NPOS]))
+    if w == ":rc":
+        return ":rc %x %x %x" % (i, rng.choice([0x61, 0x62, 0x2c, 0]), rng.choice([0x61, 0x78, 0xff, 0x0a]))
+    if w == ":rs":
+        return ":rs %x %s %s" % (i, tb(rng.choice([b"a", b"ab", b",", b"aa", b"", b])), tb(rng.choice([b"", b"x", b"abab", b])))
+    if w == ":pad":
+        return ":pad %x %x %x" % (i, j, rng.choice([0x20, 0x2e, 0x30, 0xff]))
+    if w == ":fmt":
+        return ":fmt %x %s %s" % (i, tb(a), tb(b))
+    if w == ":rep":
+        return ":rep %x %s %x" % (i, tb(b), rng.choice([0, 1, 2, 3, 16, 33]))
+    if w == ":plus":
+        return ":plus %x %x %x" % (i, j, k)
+    if w == ":rnew":
+        return ":rnew " + tb(a)
+    if w in (":rcopy", ":rlow", ":rprt", ":size"):
+        return "%s %x" % (w, j)
+    if w == ":rsub":
+        return ":rsub %x %x %x" % (j, rng.choice([0, 0, 1, 2, 5, 40, NPOS]), rng.choice([0, 1, 2, 3, 4, 31, 32, NPOS]))
+    if w == ":rsub1":
+        return ":rsub1 %x %x" % (j, rng.choice([0, 1, 2, 5, 40, NPOS]))
+    if w == ":rft":
+        return ":rft %x %x %x" % (j, rng.choice([0x61, 0x62, 0x41, 0x2c, 0]), rng.choice([0x61, 0x62, 0x2c, 0x7a, 0]))
+    if w == ":rplus":
+        return ":rplus %x %x" % (j, k)
+    if w == ":rfmt":
+        return ":rfmt %s %s" % (tb(a), tb(b))
+    if w == ":rrep":
+        return ":rrep %s %x" % (tb(b), rng.choice([0, 1, 2, 3, 16, 33]))
+    if w == ":rord":
+        return ":rord %x" % rng.choice([0, 1, 2, 3, 11, 12, 13, 21, 111, 4294967295])
+    if w == ":rmask":
+        return ":rmask %x %x %x" % (rng.getrandbits(16), rng.getrandbits(16), rng.randint(0, 3))
+    if w == ":rbin":
+        return ":rbin " + tb(bytes(rng.randrange(256) for _ in range(rng.randint(0, 5))))
+    if w == ":rsplit":
+        return ":rsplit %x %x %x" % (j, rng.choice([0x2c, 0x61, 0x62]), rng.randint(0, 4))
+    if w == ":at":
+        return ":at %x %x" % (i, rng.choice([0, 1, 2, 3, 5, 31, 100, NPOS]))
+    if w == ":cpb":
+        return ":cpb %x %x" % (i, rng.choice([0, 1, 2, 3, 4, 5, 8, 33, 120]))
+    if w == ":find":
+        return ":find %x %x %x" % (i, rng.choice([0, 1, 2, 5, NPOS]), rng.choice([0x61, 0x62, 0x2c, 0x41, 0]))
+    raise ValueError(w)
+
+
 def random_seq(rng, maxops):
-    ops = []
-    lens = [0, 1, 2, 3, 5, 8, 30, 31, 32, 33, 64, 99, 100, 101]
+    return seq([random_step(rng, rng.choice(list(SEQ_ARITY))) for _ in range(rng.randint(1, maxops))])
+
+
+# ---- chains: an operation applied IN PLACE to the object an earlier operation returned
+def chain_producers(rng, n):
+    """step lists that leave the result object R (obj[3]) -- or, for the in-place producers, obj[0] -- holding a fresh result; n = length
+    scale.  Returns (label, steps, target index).  The truncating forms (amount smaller than the remaining length, subStringFromTill
+    finding its end character) are the ones that can leave a buffer larger than size() + 1 in the returned object."""
+    a = nstr(rng, n, (0x61, 0x62, 0x41)) + b",a"; L = len(a); h = nstr(rng, max(n // 2, 1), (0x61, 0x62)); k = max(n, 1)
+    s0 = ":set 0 " + tb(a)
+    out = [("ctor", [":rnew " + tb(a)], 3),
+           ("ctor-empty", [":rnew $"], 3),
+           ("default", [], 3),
+           ("copy", [s0, ":rcopy 0"], 3),
+           ("lowerCase", [":set 0 " + tb(a.upper()), ":rlow 0"], 3),
+           ("printable", [":set 0 " + tb(a + b"\n\x01"), ":rprt 0"], 3),
+           ("plus", [s0, ":set 1 " + tb(h), ":rplus 0 1"], 3),
+           ("plus-empty", [s0, ":rplus 0 1"], 3),
+           ("format", [":rfmt %s %s" % (tb(h), tb(a))], 3),
+           ("format-long", [":rfmt %s %s" % (tb(a * 3), tb(nstr(rng, 100)))], 3),
+           ("repeat", [":rrep %s %x" % (tb(b"ab"), k)], 3),
+           ("repeat-0", [":rrep %s 0" % tb(b"ab")], 3),
+           ("ordinal", [":rord %x" % rng.choice([1, 2, 3, 11, 112, 1000003])], 3),
+           ("masked", [":rmask a5 f0 2"], 3),
+           ("binary", [":rbin " + tb(bytes([0, 0xff, 0x10]))], 3),
+           ("binary-empty", [":rbin $"], 3),
+           # replace results and padded strings: the object is changed in place and then consumed
+           ("replace-str-grow", [":rnew " + tb(a), ":rs 3 %s %s" % (tb(b"a"), tb(b"AAA"))], 3),
+           ("replace-str-shrink", [":rnew " + tb(a), ":rs 3 %s %s" % (tb(b"a"), tb(b""))], 3),
+           ("replace-str-all", [":rnew " + tb(b"aaaa"), ":rs 3 %s %s" % (tb(b"a"), tb(b""))], 3),
+           ("replace-str-nomatch", [":rnew " + tb(a), ":rs 3 %s %s" % (tb(b"zz"), tb(b"y"))], 3),
+           ("replace-char", [":rnew " + tb(a), ":rc 3 61 7a"], 3),
+           ("padded-1", [":rnew " + tb(h), ":set 1 " + tb(a), ":pad 3 1 2e"], 3),
+           ("padded-2", [":rnew " + tb(h), ":set 1 " + tb(a), ":pad 1 3 20"], 3),
+           ("padded-not", [":rnew " + tb(a), ":set 1 " + tb(h), ":pad 3 1 2e"], 3),
+           ("named replace-str", [s0, ":rs 0 %s %s" % (tb(b"a"), tb(b"AAA"))], 0),
+           ("named padded", [":set 0 " + tb(h), ":set 1 " + tb(a), ":pad 0 1 2e"], 0),
+           ("named assigned subString", [":set 1 " + tb(a), ":sub 0 1 0 %x" % max(L // 2, 1)], 0)]
+    # subString(begin, amount): every truncating / non-truncating / out-of-range shape
+    for b, m, what in ((0, L // 2, "truncating"), (0, 1, "truncating to 1"), (0, 0, "truncating to 0"), (1, L - 2, "truncating by 1"), (2, 1, "truncating inner"),
+                       (L - 1, 0, "truncating last"), (0, L, "exact"), (0, L + 1, "amount past end"), (1, NPOS, "npos"), (0, NPOS, "whole"),
+                       (L, 1, "begin at end"), (L + 1, 0, "begin past end"), (NPOS, NPOS, "begin npos")):
+        out.append(("subString " + what, [s0, ":rsub 0 %x %x" % (b, m)], 3))
+    for b in (0, 1, L - 1, L, NPOS):
+        out.append(("subString(begin)", [s0, ":rsub1 0 %x" % b], 3))
+    # a second subString on the returned object, then consumed
+    out.append(("subString of subString", [s0, ":rsub 0 0 %x" % max(L - 1, 1), ":rsub 3 1 %x" % max(L // 3, 1)], 3))
+    out.append(("subString(begin) of subString", [s0, ":rsub 0 0 %x" % max(L // 2, 1), ":rsub1 3 1"], 3))
+    # subStringFromTill: end character found (truncation) / not found / start not found / both the same
+    line = nstr(rng, max(n // 2, 1), (0x61, 0x62)) + b"k=" + nstr(rng, n, (0x61, 0x62)) + b";x"
+    for c1, c2, what in ((0x6b, 0x3d, "end found"), (0x6b, 0x3b, "end found late"), (0x6b, 0x7a, "end not found"), (0x7a, 0x3d, "start not found"),
+                         (0x6b, 0x6b, "end = start"), (0x3d, 0, "end NUL"), (0, 0x3d, "start NUL")):
+        out.append(("subStringFromTill " + what, [":set 0 " + tb(line), ":rft 0 %x %x" % (c1, c2)], 3))
+    # elements of a split collection (each is itself produced by a truncating subString), the last piece, the out-of-range element
+    parts = b",".join(nstr(rng, max(n // 3, 1), (0x61, 0x62)) for _ in range(3))
+    for txt, ks in ((parts, (0, 1, 2, 3)), (parts + b",", (2, 3)), (b",,", (0, 1, 2)), (b"", (0, 1)), (b"abc", (0, 1))):
+        for kk in ks:
+            out.append(("split element", [":set 0 " + tb(txt), ":rsplit 0 2c %x" % kk], 3))
+    return out
+
+
+def chain_consumers(rng, t, n):
+    """step lists that consume obj[t] in place (or read it as an argument); obj[1], obj[2] are scratch"""
+    x = nstr(rng, max(n // 4, 1), (0x78, 0x79, 0x2c)); T = "%x" % t
+    out = [[":appc %s %s" % (T, tb(b"x"))],
+           [":appc %s %s" % (T, tb(x + b", there"))],
+           [":appc %s $" % T],
+           [":set 2 " + tb(x), ":app %s 2" % T],
+           [":app %s %s" % (T, T)],
+           [":app 2 " + T, ":appc 2 " + tb(b"!")],
+           [":rc %s 61 7a" % T],
+           [":rc %s 2c 61" % T],
+           [":rs %s %s %s" % (T, tb(b"a"), tb(b"xyz"))],
+           [":rs %s %s %s" % (T, tb(b"a"), tb(b""))],
+           [":rs %s %s %s" % (T, tb(b"q"), tb(b"xyz"))],
+           [":rs %s %s %s" % (T, tb(b","), tb(b";;"))],
+           [":size " + T],
+           [":cmp %s 0" % T, ":cmp 0 " + T, ":cmp %s %s" % (T, T)],
+           [":set 2 " + tb(b"a"), ":cmp %s 2" % T, ":set 2 $", ":cmp %s 2" % T],
+           [":find %s 0 61" % T, ":find %s 1 2c" % T, ":find %s 0 0" % T],
+           [":rsub %s 0 1" % T], [":rsub %s 1 %x" % (T, NPOS)], [":rsub1 %s 1" % T], [":sub 1 %s 0 2" % T],
+           [":rft %s 61 2c" % T],
+           [":rsplit %s 2c 0" % T], [":rsplit %s 61 1" % T],
+           [":asg 1 " + T], [":asg %s %s" % (T, T)], [":rcopy " + T], [":low 1 " + T], [":rlow " + T], [":prt 1 " + T], [":rprt " + T],
+           [":plus 1 %s %s" % (T, T)], [":rplus %s %s" % (T, T)],
+           [":set 1 " + tb(x * 9), ":pad %s 1 2e" % T], [":set 1 " + tb(x * 9), ":pad 1 %s 2e" % T], [":pad %s 1 2e" % T],
+           [":set %s %s" % (T, tb(x))]]
+    for dn in (0, 1, 2, 3, n, n + 1, n + 2, n + 8):
+        out.append([":cpb %s %x" % (T, dn)])
+    for pos in (0, 1, 2, n - 1, n, n + 1, NPOS):
+        out.append([":at %s %x" % (T, max(pos, 0))])
+    return out
+
+
+def chain_tail(t):
+    """what is still asked of the object after the consumer: its size, a further += (must not be lost either), a copy, a comparison"""
+    T = "%x" % t
+    return [":size " + T, ":appc %s %s" % (T, tb(b"!")), ":asg 2 " + T, ":cmp 2 " + T]
+
+
+def random_chain(rng, maxops):
+    """a producer of R, then random steps that mostly work on R itself"""
+    prods = chain_producers(rng, rng.choice([1, 2, 3, 5, 8, 31, 33, 100]))
+    _, steps, t = rng.choice(prods)
+    ops = list(steps)
     for _ in range(rng.randint(1, maxops)):
-        i, j, k = rng.randrange(3), rng.randrange(3), rng.randrange(3)
-        a = nstr(rng, rng.choice(lens) if rng.random() < 0.3 else rng.randint(0, 6))
-        b = nstr(rng, rng.randint(0, 3))
-        w = rng.choice(list(SEQ_ARITY))
-        if w == ":set" or w == ":appc":
-            ops.append("%s %x %s" % (w, i, tb(a)))
-        elif w in (":asg", ":app", ":low", ":prt"):
-            ops.append("%s %x %x" % (w, i, j))
-        elif w == ":sub":
-            ops.append(":sub %x %x %x %x" % (i, j, rng.choice([0, 1, 2, 5, 40, NPOS]), rng.choice([0, 1, 3, 31, 32, NPOS])))
-        elif w == ":rc":
-            ops.append(":rc %x %x %x" % (i, rng.choice([0x61, 0x62, 0x2c, 0]), rng.choice([0x61, 0x78, 0xff, 0x0a])))
-        elif w == ":rs":
-            ops.append(":rs %x %s %s" % (i, tb(rng.choice([b"a", b"ab", b",", b"aa", b"", b])), tb(rng.choice([b"", b"x", b"abab", b]))))
-        elif w == ":pad":
-            ops.append(":pad %x %x %x" % (i, j, rng.choice([0x20, 0x2e, 0x30, 0xff])))
-        elif w == ":fmt":
-            ops.append(":fmt %x %s %s" % (i, tb(a), tb(b)))
-        elif w == ":rep":
-            ops.append(":rep %x %s %x" % (i, tb(b), rng.choice([0, 1, 2, 3, 16, 33])))
+        c = rng.random()
+        if c < 0.6:
+            ops += rng.choice(chain_consumers(rng, t, rng.choice([1, 3, 8, 31])))
+        elif c < 0.8:
+            ops.append(random_step(rng, rng.choice(list(SEQ_ARITY))))
         else:
-            ops.append(":plus %x %x %x" % (i, j, k))
+            ops += rng.choice(chain_producers(rng, rng.choice([1, 3, 8])))[1]
     return seq(ops)
 
 
@@ -437,6 +590,25 @@ def gen_life(ops, tier, rng):
             out.append(seq(base + [":pad 0 1 2e", ":rs 0 " + tb(b".") + " " + tb(b"--"), ":pad 1 0 2e"]))
         for _ in range(300 if quick else 20000):
             out.append(random_seq(rng, 8 if quick else 20))
+    if "chain" in ops:
+        # every producer of an object x every operation applied in place to the RETURNED object itself, at two sizes
+        for n in ((3, 40) if quick else (1, 3, 8, 31, 40, 100)):
+            for _, pr, t in chain_producers(rng, n):
+                for cn in chain_consumers(rng, t, n):
+                    out.append(seq(pr + cn + chain_tail(t)))
+        # the shape of the red-team change and its neighbours: truncating / non-truncating substring, directly / through a copy / through an assignment
+        for txt in (b"Hello World", b"a", b"ab", b"abc", b"\x80\xff\x01xyz", b"0123456789" * 4):
+            L = len(txt)
+            for b in range(0, min(L, 4) + 2):
+                for m in sorted(set([0, 1, 2, L - b - 1, L - b, L - b + 1, L]) & set(range(0, L + 2))):
+                    for tail in (b"", b"!", b", there", b"\xfe\x7f"):
+                        base = [":set 0 " + tb(txt), ":rsub 0 %x %x" % (b, m)]
+                        out.append(seq(base + [":appc 3 " + tb(tail), ":size 3", ":set 1 " + tb(tail), ":app 3 1"]))
+                    out.append(seq(base + [":rcopy 3", ":appc 3 " + tb(b"=")]))
+                    out.append(seq(base + [":asg 1 3", ":appc 1 " + tb(b"=")]))
+                    out.append(seq(base + [":app 1 3", ":appc 0 " + tb(b"=")]))
+        for _ in range(500 if quick else 30000):
+            out.append(random_chain(rng, 4 if quick else 10))
     return out
 
 
@@ -460,6 +632,14 @@ def classify(s):
         for x, y in zip(ops, ops[1:]):
             if x[0] == ":pad" and y[1] in x[1:3] and y[0] in (":app", ":appc", ":pad", ":asg", ":set", ":rs"):
                 labels.append("seq: padding then %s of a padded object" % y[0])
+        # chains: the object an operation returned consumed in place by the next step
+        for k, x in enumerate(ops[:-1]):
+            y = ops[k + 1]
+            if x[0] in R_PRODUCERS and "3" in y[1:1 + _nidx(y[0])]:
+                labels.append("chain: %s then %s on the returned object" % (x[0], y[0]))
+                if x[0] == ":rsub" and k > 0 and ops[k - 1][0] == ":set" and ops[k - 1][1] == x[1]:
+                    L = (len(ops[k - 1][2]) - 1) // 2; b = int(x[2], 16); m = int(x[3], 16)
+                    labels.append("chain: %s subString then %s" % ("truncating" if b < L and m < L - b else "non-truncating", y[0]))
         return labels
     strs = [x for x in t[1:] if x.startswith("$")]
     if strs:
@@ -470,6 +650,13 @@ def classify(s):
     if len(strs) >= 2 and len(strs[1]) == 1:
         labels.append("empty second argument")
     return labels
+
+
+def _nidx(w):
+    """how many leading arguments of a sequence step are object indices"""
+    return {":set": 1, ":appc": 1, ":rc": 1, ":rs": 1, ":fmt": 1, ":rep": 1, ":asg": 2, ":app": 2, ":low": 2, ":sub": 2, ":prt": 2, ":pad": 2, ":plus": 3,
+            ":rcopy": 1, ":rsub": 1, ":rsub1": 1, ":rft": 1, ":rlow": 1, ":rprt": 1, ":rplus": 2, ":rsplit": 1, ":size": 1, ":at": 1, ":cmp": 2, ":cpb": 1,
+            ":find": 1}.get(w, 0)
 
 
 def seq_split(t):
@@ -493,7 +680,10 @@ def signature(s, o):
         kind = "a buffer not returned exactly once with the size it was requested with"
     else:
         kind = "wrong result"
-    return "%s => %s" % (t[0], kind)
+    what = t[0]
+    if t[0] == ":seq" and any(x in R_PRODUCERS for x in t):
+        what = ":seq with an operation applied in place to a returned object"
+    return "%s => %s" % (what, kind)
 
 
 def shrink(s):
@@ -504,6 +694,13 @@ def shrink(s):
             rest = ops[:k] + ops[k + 1:]
             if rest:
                 yield seq([" ".join(o) for o in rest])
+        for k, o in enumerate(ops):             # smaller positions / amounts / counts (not the object indices)
+            for q in range(1 + _nidx(o[0]), len(o)):
+                if not o[q].startswith("$") and o[q] not in ("0",):
+                    v = int(o[q], 16)
+                    for c in sorted(set([v // 2, v - 1])):
+                        o2 = o[:q] + ["%x" % c] + o[q + 1:]
+                        yield seq([" ".join(x) for x in ops[:k] + [o2] + ops[k + 1:]])
     for i, x in enumerate(t):
         if x.startswith("$") and len(x) > 1:
             b = bytes.fromhex(x[1:])
